@@ -23,7 +23,9 @@ VARIABLES row, out, reqs
 vars == <<row, out, reqs>>
 
 \* ---------------- sources ----------------
-EvLogs == {"none", "unreadable", "nomatch", "raw", "raw_uri", "var_ok", "var_missing", "var_missing_uri", "var_ok_uri", "local_kind", "uri"}
+EvLogs == {"none", "unreadable", "nomatch", "raw", "raw_uri", "var_ok", "var_missing", "var_missing_uri", "var_ok_uri", "local_kind", "uri",
+           \* logs with two kinds of local locator (the variable event first): raw data takes precedence
+           "var_ok_then_raw", "var_missing_then_raw"}
 Quotes == {"none", "unparseable", "snp_extra", "snp_noextra", "report_only", "tdx", "certtable_extra", "certtable_noextra",
            "snp_short_meas", "tdx_short_mrtd"}      \* a report / quote whose measurement is not 48 bytes long
 Providers == {"none", "snp_extra", "snp_noextra", "failing"}
@@ -32,7 +34,7 @@ SrcRows == [mode : {"sources"}, evlog : EvLogs, quote : Quotes, provider : Provi
 
 \* the event log's local locators (raw, then UEFI variable): outcome
 EvLocal(r) ==
-  CASE r.evlog \in {"raw", "raw_uri"} -> "evlog_raw"
+  CASE r.evlog \in {"raw", "raw_uri", "var_ok_then_raw", "var_missing_then_raw"} -> "evlog_raw"
     [] r.evlog \in {"var_ok", "var_ok_uri"} -> "evlog_var"
     [] OTHER -> "err"       \* unreadable, no matching manufacturer, variable missing, unsupported kind, URI only
 HasUri(r) == r.evlog \in {"uri", "raw_uri", "var_ok_uri", "var_missing_uri"}
@@ -88,7 +90,7 @@ Extract(r) ==
 
 \* what "local evidence" is available, in precedence order
 Local(r) ==
-  IF r.evlog \in {"raw", "raw_uri"} THEN "evlog_raw"
+  IF r.evlog \in {"raw", "raw_uri", "var_ok_then_raw", "var_missing_then_raw"} THEN "evlog_raw"
   ELSE IF r.evlog \in {"var_ok", "var_ok_uri"} THEN "evlog_var"
   ELSE IF r.quote \in {"snp_extra", "certtable_extra"} THEN "quote_extra"
   ELSE "none"
